@@ -281,7 +281,8 @@ contract(F, "EquivalenceRule.constructor", props=["C09", "C01", "C07"], lenient=
          params={"self": Obj("EquivalenceRule")}, returns=Obj("ConstructorAny"),
          isinstance_map={"Complement": _is_complement,
                          "DisjointUnion": lambda ex, v, st: z3.Not(_is_complement(ex, v, st))},
-         requires=["0 <= self.child_idx", "self.child_idx < len(ctor_of(self.original_rule).extra_parameters)"],
+         requires=["0 <= self.child_idx", "self.child_idx < len(ctor_of(self.original_rule).extra_parameters)",
+                   "len(children_of(self)) == 1"],
          may_raise=["NotImplementedError", "StrategyDoesNotApply", "AssertionError"], asserts="raise",
          call_requires={"DisjointUnion.__init__": [
              "same(parent, caller_self.comb_class)", "children == children_of(caller_self)",
@@ -328,3 +329,23 @@ contract(F, "VerificationRule.forest_key", props=["C11", "C03", "C02"],
                   "result.bucket == bucket('VERIFICATION')"],
          modifies=["self._children", "self._shifts"],
          notes="a verification rule with dependencies is a rule with children for the forest database")
+
+# ------------------------------------------------------------------ C09: EquivalenceRule.constructor, Complement case
+# (the reverse of a union with one non-empty child): child and parent swap roles, the map is that of the counted child
+REG.classes["Complement"].fields.update({"extra_parameters": Seq(Dict(Str, Str))})
+contract("comb_spec_searcher/strategies/constructor/disjoint.py", "Complement.__init__", props=["C09", "C01", "C07"], verify=False,
+         trusted_reason="constructor summary: stores its arguments and builds the parameter maps (param_map functions are "
+                        "verified under C09)",
+         params={"self": Obj("Complement"), "parent": CombClass, "children": Seq(CombClass), "idx": Int,
+                 "extra_parameters": Opt(Seq(Dict(Str, Str)))},
+         ensures=["self.idx == idx", "implies(not is_none(extra_parameters), self.extra_parameters == val(extra_parameters))"],
+         may_raise=["AssertionError"], modifies=["*self"], self_invariant=False)
+
+_er = REG.contracts["EquivalenceRule.constructor"]
+_er.call_requires = dict(_er.call_requires)
+_er.call_requires["Complement.__init__"] = [
+    # counted class = the single child of this rule; its only "child" = this rule's parent
+    "len(children_of(caller_self)) >= 1 and parent == children_of(caller_self)[0]",
+    "len(children) == 1 and children[0] == caller_self.comb_class", "idx == 0",
+    "not is_none(extra_parameters) and len(val(extra_parameters)) == 1"]
+_er.modifies = list(_er.modifies) + ["all:Obj('Complement')"]
